@@ -157,10 +157,27 @@ fn check(case: &Case) -> Outcome {
             let (s1, s2, s3) = (sk_of(*g, sk1), sk_of(*g, sk2), sk_of(*g, sk3));
             let (pk1, pk2) = (crrl_keypair(*g, &s1), crrl_keypair(*g, &s2));
             // peer bytes seen by party 1
-            let peer_bytes: Vec<u8> = match peer_mode % 6 {
+            let peer_bytes: Vec<u8> = match peer_mode % 8 {
                 0 => pk2.clone(),
                 1 => vec![0u8; 32],          // neutral
                 2 => pk1.clone(),            // own public key
+                6 | 7 => {
+                    // a valid peer key that shares a long prefix (or suffix) with the local public key: one byte of the
+                    // local key is replaced by the first other value that still decodes to a non-neutral element
+                    let pos = if peer_mode % 8 == 6 { 31 - (peer.first().copied().unwrap_or(0) as usize % 3) } else { peer.first().copied().unwrap_or(0) as usize % 32 };
+                    let mut q = pk1.clone();
+                    let start = peer.get(1).copied().unwrap_or(1);
+                    for d in 1..=255u8 {
+                        let mut c = pk1.clone();
+                        c[pos] = pk1[pos].wrapping_add(start.wrapping_mul(2).wrapping_add(d));
+                        if c != pk1 && sch.group.decode(&c).map(|p| !sch.group.is_neutral(&p)).unwrap_or(false) {
+                            q = c;
+                            break;
+                        }
+                    }
+                    acc.tag("peer_shares_prefix_with_own_key");
+                    q
+                }
                 _ => peer.clone(),           // arbitrary / mutated / wrong length
             };
             let q = if peer_bytes.len() == 32 { sch.group.decode(&peer_bytes).filter(|p| !sch.group.is_neutral(p)) } else { None };
@@ -172,7 +189,7 @@ fn check(case: &Case) -> Outcome {
             acc.check(status_ok, || format!("C09:{name}:ecdh:status"), || format!("ECDH(peer={}) -> {:?}, peer valid = {}", hex(&peer_bytes), r1.as_ref().map(|(k, s)| (hex(k), format!("{s:08x}"))), valid));
             acc.check(r1.is_ok() && r1 == r1b, || format!("C09:{name}:ecdh:nondeterministic"), || "two identical ECDH calls differ".into());
             if let Ok((k1, _)) = &r1 {
-                if peer_mode % 6 == 0 {
+                if peer_mode % 8 == 0 {
                     // the other side
                     let r2 = guard(|| crrl_ecdh(*g, &s2, &pk1));
                     acc.check(matches!(&r2, Ok((k2, s)) if k2 == k1 && *s == 0xFFFFFFFF), || format!("C09:{name}:ecdh:asymmetric"), || format!("the two sides derive {} and {:?}", hex(k1), r2.as_ref().map(|(k, s)| (hex(k), format!("{s:08x}")))));
@@ -182,9 +199,15 @@ fn check(case: &Case) -> Outcome {
                     let r3 = guard(|| crrl_ecdh(*g, &s3, &peer_bytes));
                     acc.check(matches!(&r3, Ok((k3, _)) if k3 != k1), || format!("C09:{name}:ecdh:key_independent_of_secret"), || format!("two different private keys derive the same key {} for peer {}", hex(k1), hex(&peer_bytes)));
                 }
-                // documented derivation (module comments): reported as a tag only
+                // documented derivation (module comments / jq255 specification): BLAKE2s(lower key || higher key || 0x53 || shared point).
+                // On success this is what makes the two sides agree, so it is part of the oracle (the other side of a crafted
+                // peer key cannot be executed, its private key being unknown); on failure it is only reported.
                 let (mk, _) = sch.ecdh(&s1, &pk1, &peer_bytes);
-                acc.tag(if mk == *k1 { "kdf_matches_documented_derivation" } else { "kdf_differs_from_documented_derivation" });
+                if valid {
+                    acc.check(mk == *k1, || format!("C09:{name}:ecdh:derivation"), || format!("ECDH(peer={}) = {} but the documented derivation (the value the peer computes) gives {}", hex(&peer_bytes), hex(k1), hex(&mk)));
+                } else {
+                    acc.tag(if mk == *k1 { "failure_kdf_matches_documented_derivation" } else { "failure_kdf_differs_from_documented_derivation" });
+                }
             }
         }
     }
@@ -260,7 +283,7 @@ impl Property for C09 {
                 sk_strategy(),
                 sk_strategy(),
                 sk_strategy(),
-                0u8..6,
+                0u8..8,
                 prop_oneof![2 => enc_strategy(gi), 2 => prop::collection::vec(any::<u8>(), 32), 1 => prop::sample::select(vec![0usize, 1, 31, 33, 64]).prop_flat_map(|n| prop::collection::vec(any::<u8>(), n)), 1 => enc_strategy(gi).prop_map(|mut e| { e[31] |= 0x80; e })],
             )
                 .prop_map(move |(sk1, sk2, sk3, peer_mode, peer)| Case::Ecdh { g, sk1, sk2, sk3, peer_mode, peer })
